@@ -360,7 +360,7 @@ def run(ctx):
             stores = [a for a in used if a.startswith("store_")]
             if w in WEAK:
                 ctx.check(not stores, "TABLE", key + ":weak-never-stores", "weak wrapper never stores", "weak wrapper %s stores a pointer (%s)" % (w, stores), config, ctx.where(vis[0]) if vis else None)
-                ctx.check(any("IgnoredAny" in c for c in consumes), "TABLE", key + ":weak-consumes-payload", "the replayed target node is consumed (IgnoredAny)", "weak wrapper %s does not consume the replayed node: the stream goes out of sync" % w, config, ctx.where(vis[0]) if vis else None)
+                ctx.check(any(c.replace(" ", "") in ("serde::de::IgnoredAny", "IgnoredAny") or (c.endswith("IgnoredAny") and "Option" not in c) for c in consumes), "TABLE", key + ":weak-consumes-payload", "the replayed target node is consumed (IgnoredAny)", "weak wrapper %s does not consume the replayed node: the stream goes out of sync" % w, config, ctx.where(vis[0]) if vis else None)
             else:
                 ctx.check(len(stores) == 1, "TABLE", key + ":strong-stores", "strong wrapper stores its allocation once (%s)" % stores, "strong wrapper %s does not store its allocation exactly once (%s): later aliases get an independent copy" % (w, stores), config, ctx.where(vis[0]) if vis else None)
         # ---- serializer: id from the pointer, define then alias
